@@ -867,3 +867,85 @@ def run_cases_both(name, case_ty, ok_fun, ok_fun_src, cases, shard=400, timeout=
             bm += [k * shard + i for i in a]
             bs += [k * shard + i for i in b]
     return allok, bm, bs, log
+
+
+# --------------------------------------------------------------------------- cases AIMED at the generations loop (search(), A.23)
+def es_direct(seed):
+    """One call of the real ESSearchELL.__call__ on a synthetic state, aimed at the selection statements of the generations loop:
+    the filter and the acquisition function are replaced, inside pybads.search.es_search, by recorders that (a) project onto the box
+    they are HANDED and let a prescribed number of rows survive (whole generations without survivors, populations of one or two,
+    more survivors than lamb) and (b) score the survivors with prescribed values (ties, NaN, a later generation better or worse than
+    the first).  Returns a record in the format of Recorder.es_calls for es_monitor.  Deterministic in `seed` (replay)."""
+    import random
+    import types
+    import logging
+    import pybads.search.es_search as es
+    rng = random.Random(seed)
+    D = rng.choice([1, 2, 2, 3])
+    lamb = rng.choice([1, 2, 3, 5, 8])
+    iters = rng.choice([1, 2, 2, 3, 4])
+    mesh = 2.0 ** rng.choice([-3, -2, -1])
+    lbs = np.array([-2.0 + mesh * rng.randint(0, 3) for _ in range(D)])
+    ubs = lbs + mesh * np.array([rng.randint(4, 24) for _ in range(D)])
+    opts = dict(poll_mesh_multiplier=2.0, es_start=0.25, n_search_iter=iters, search_acq_fcn=("acq_LCB", None), es_beta=1)
+    ost = dict(mesh_size=mesh, search_factor=1.0, search_mesh_size=mesh / 2, tol_mesh=1e-6, lb_search=lbs.copy(), ub_search=ubs.copy())
+    keep_plan = [rng.choice(["all", "all", "none", "one", "two", "half"]) for _ in range(iters)]
+    zmode = [rng.choice(["rand", "rand", "ties", "nan", "better", "worse"]) for _ in range(iters)]
+    c = dict(cls="ESSearchELL", mu=lamb, lamb=lamb, iters=iters, gens=[], lb=None, ub=None, ret=None, exc=None,
+             lb_search=lbs.copy(), ub_search=ubs.copy(), hard_lb=None, hard_ub=None, search_mesh=mesh / 2, direct_seed=seed)
+    o_cc, o_acq = es.contraints_check, es.acq_fcn_lcb
+
+    def cc(U, lb, ub, tol, fl, proj=False, cons=None):
+        U = np.array(U, dtype=float)
+        lb_, ub_ = np.asarray(lb, dtype=float).reshape(-1), np.asarray(ub, dtype=float).reshape(-1)
+        k = len(c["gens"])
+        P = np.maximum(np.minimum(U, ub_), lb_) if proj else U[np.all((U >= lb_) & (U <= ub_), axis=1)]
+        P = np.unique(P, axis=0) if P.shape[0] else P
+        plan = keep_plan[min(k, iters - 1)]
+        n = P.shape[0]
+        m = dict(all=n, none=0, one=min(1, n), two=min(2, n), half=(n + 1) // 2)[plan]
+        idx = sorted(rng.sample(range(n), m)) if n else []
+        out = P[idx] if m else P[:0]
+        c["gens"].append([U, np.array(out), None])
+        c["lb"], c["ub"] = lb_, ub_
+        return out
+
+    def acq(xi, t, gp, sb=None):
+        xi = np.asarray(xi)
+        n = xi.shape[0]
+        k = len(c["gens"]) - 1
+        mode = zmode[min(max(k, 0), iters - 1)]
+        z = np.array([rng.choice([-1.0, 0.0, 0.5, 1.0, 2.0]) + (0.0 if mode == "ties" else rng.random()) for _ in range(n)])
+        if mode == "nan":
+            z = np.where(np.array([rng.random() < 0.6 for _ in range(n)]), np.nan, z)
+        z = z + (-5.0 if mode == "better" else 5.0 if mode == "worse" else 0.0)
+        if c["gens"] and c["gens"][-1][2] is None:
+            c["gens"][-1][2] = np.array(z, dtype=float)
+        return z.reshape(-1, 1), z.copy(), np.ones(n)
+
+    es.contraints_check, es.acq_fcn_lcb = cc, acq
+    st = np.random.get_state()
+    lvl = logging.getLogger("BADS").level
+    logging.getLogger("BADS").setLevel(logging.CRITICAL)
+    try:
+        np.random.seed(seed % (2 ** 31))
+        s = es.ESSearchELL(lamb, lamb, opts)
+        gp = types.SimpleNamespace(X=np.zeros((4, D)), y=np.zeros((4, 1)), temporary_data=dict(poll_scale=np.ones(D)))
+        fl = types.SimpleNamespace(func_count=10)
+        u = (lbs + ubs) / 2
+        import warnings
+        with warnings.catch_warnings():
+            warnings.simplefilter("ignore")
+            r = s(u, lbs, ubs, fl, gp, ost, True, None)
+        if np.asarray(r[0]).size == 0:
+            c["ret"] = "empty"
+        else:
+            c["ret"] = (np.array(r[0], dtype=float).reshape(-1), float(np.asarray(r[1]).reshape(-1)[0]))
+    except Exception as ex:
+        c["exc"] = type(ex).__name__
+        c["exc_msg"] = str(ex)[:120]
+    finally:
+        es.contraints_check, es.acq_fcn_lcb = o_cc, o_acq
+        np.random.set_state(st)
+        logging.getLogger("BADS").setLevel(lvl)
+    return c
